@@ -631,7 +631,10 @@ func TestC06(t *testing.T) {
 	rng := NewRand(Seed())
 	for i := 0; i < n; i++ {
 		r := rng.Fork()
-		if i%sessionEvery == sessionEvery-1 {
+		if isLarge(i) {
+			// one batch request for more accounts than a remote signer takes in one piece
+			ins = append(ins, genLarge(r, i/largeEvery))
+		} else if i%sessionEvery == sessionEvery-1 {
 			// every sessionEvery-th input is a session of several requests on one service instance
 			ins = append(ins, genSession(r, i/sessionEvery))
 		} else if i%overlapEvery == overlapEvery-2 {
@@ -666,6 +669,7 @@ func TestC06(t *testing.T) {
 			tags := append(append(append([]string{}, in.Tags...), derivedTags(v)...), sessionTags(in, j)...)
 			tags = append(tags, partialTags(v)...)
 			tags = append(tags, overlapTags(in, j)...)
+			tags = append(tags, largeTags(v)...)
 			tags = append(tags, contentTags(v)...)
 			col.Count("kind:" + v.Kind)
 			col.Count("outcome:" + v.Kind + ":" + obs.Outcome)
@@ -692,7 +696,7 @@ func TestC06(t *testing.T) {
 			}
 			sample := obs
 			sample.Earlier = all[:j]
-			col.Add(Case{Term: term(id, v, obs), Key: string(key), Nontrivial: obs.Outcome == "ok" && nonzero > 0, Tags: tags,
+			col.Add(Case{Term: shareNumerals(term(id, v, obs)), Key: string(key), Nontrivial: obs.Outcome == "ok" && nonzero > 0, Tags: tags,
 				Sample: map[string]any{"input": upto, "observed": sample}})
 		}
 	}
